@@ -78,6 +78,24 @@ def gen(tier, rng, harness=None):
     return lines
 
 
+def extra(res, findings, tier, rng, harness, driver):
+    """LLVM 14 as the reader of integer literals: `@g = global iW <literal>` in every literal form (signed decimal, unsigned decimal, u0x, true/false;
+    `s0x` is excluded: C09 defines it at the type's width, LLVM 14 reads the active bits) — llir's reading and the literal llir prints must both
+    denote the value LLVM reads"""
+    from . import refstage
+    texts = []
+    n = 150 if tier == "quick" else 4000
+    for i in range(n):
+        w = rng.choice([1, 2, 7, 8, 16, 31, 32, 33, 63, 64, 65, 100, 128, 129, 256])
+        x = rng.choice([0, 1, 2**w - 1, 2**(w - 1), 2**(w - 1) - 1, rng.getrandbits(w), rng.getrandbits(max(1, w // 2))]) % (2**w)
+        sx = x - 2**w if x >= 2**(w - 1) else x
+        forms = [str(x), str(sx), "u0x%X" % x, "u0x%x" % x, "u0x00%X" % x]
+        if w == 1:
+            forms += ["true", "false"]
+        texts.append(("i%d-%s" % (w, i), "@g = global i%d %s\n" % (w, rng.choice(forms))))
+    return refstage.run(res, findings, harness, "C09", texts)
+
+
 def nontrivial(ln, model_out):
     p = ln.split()
     return len(p) >= 3 and len(p[2]) > 1
